@@ -238,7 +238,10 @@ def read_ndjson(path):
             line = line.strip()
             if not line:
                 continue
-            v = json.loads(line)
+            try:
+                v = json.loads(line)
+            except ValueError:
+                continue          # a record cut short by a crash of the process that wrote it
             if isinstance(v, list):
                 out.extend(v)
             else:
